@@ -31,8 +31,9 @@ type mp struct {
 	exec            bool
 }
 
-// non-adjacent mappings, first one at the conventional 0x400000 with offset 0 (so that no
-// documented heuristic - hugepage removal, main-binary offset fix-up, adjacent-merge - applies)
+// mappings of different files, first one at the conventional 0x400000 with offset 0 (so that no
+// heuristic - hugepage removal, main-binary offset fix-up - applies); printMaps may list one
+// mapping in adjacent pieces, which the documented adjacent-merge puts together again
 var stdMaps = []mp{
 	{0x400000, 0x500000, 0, "/bin/main", true},
 	{0x600000, 0x601000, 0x1000, "/bin/main.data", false},
@@ -61,14 +62,32 @@ func printMaps(r *rand.Rand, sb *strings.Builder, sentinel string) string {
 		form = "brief"
 	}
 	for _, m := range stdMaps {
-		if form == "proc" {
-			perm := "r-xp"
-			if !m.exec {
-				perm = "rw-p"
+		// an executable mapping may be listed in 2-4 adjacent pieces with consecutive offsets
+		// (text remapped onto huge pages, ...): documented to be merged back into one mapping
+		pieces := []mp{m}
+		if m.exec && r.Intn(3) == 0 {
+			k := 2 + r.Intn(3)
+			step := ((m.end - m.start) / uint64(k)) &^ 0xfff
+			pieces = nil
+			for i := 0; i < k; i++ {
+				pc := mp{start: m.start + uint64(i)*step, end: m.start + uint64(i+1)*step, off: m.off + uint64(i)*step, file: m.file, exec: true}
+				if i == k-1 {
+					pc.end = m.end
+				}
+				pieces = append(pieces, pc)
 			}
-			fmt.Fprintf(sb, "%08x-%08x %s %08x 00:00 0 %s\n", m.start, m.end, perm, m.off, m.file)
-		} else if m.exec {
-			fmt.Fprintf(sb, "  %08x-%08x: %s\n", m.start, m.end, m.file)
+			form += fmt.Sprintf("+split%d", k)
+		}
+		for _, m := range pieces {
+			if strings.HasPrefix(form, "proc") {
+				perm := "r-xp"
+				if !m.exec {
+					perm = "rw-p"
+				}
+				fmt.Fprintf(sb, "%08x-%08x %s %08x 00:00 0 %s\n", m.start, m.end, perm, m.off, m.file)
+			} else if m.exec {
+				fmt.Fprintf(sb, "  %08x-%08x: %s\n", m.start, m.end, m.file)
+			}
 		}
 	}
 	return form
@@ -95,7 +114,7 @@ func checkMaps(p *profile.Profile, form string) string {
 		if l.Mapping.File != want.file || l.Mapping.Start != want.start || l.Mapping.Limit != want.end {
 			return fmt.Sprintf("location %#x assigned to mapping %q [%#x,%#x), memory map says %q [%#x,%#x)", l.Address, l.Mapping.File, l.Mapping.Start, l.Mapping.Limit, want.file, want.start, want.end)
 		}
-		if form == "proc" && l.Mapping.Offset != want.off {
+		if strings.HasPrefix(form, "proc") && l.Mapping.Offset != want.off {
 			return fmt.Sprintf("mapping %q offset %#x, memory map says %#x", want.file, l.Mapping.Offset, want.off)
 		}
 	}
